@@ -1,6 +1,7 @@
 """C02 — expressions group exactly as the documented precedence and associativity.
-Theorems: coq/Properties/C02.v (round trip parse(print s) = desugar s for the minimal and the fully
-parenthesised token text, by induction over all surface trees of the proved fragment).
+Theorems: coq/Properties/C02.v (round trip parse(print p) = desugar p for the minimal and the fully
+parenthesised token text, by induction over ALL well-formed programs / surface trees: every construct, any depth;
+Proofs/ParserProofs{,2,3}.v).
 Tie (the parser model is hand-written, so this is essential):
  (i)   model parser vs ka.parse.parse_tokens on ALL token-tag sequences up to a length bound (one
        representative payload per tag), compared on a structural dump of the tree or on the
